@@ -11,7 +11,7 @@
     [save] returns a flag: [false] when a look inside a writer raised (BSP.save raises, no file is written). *)
 From Coq Require Import List Arith.
 From Coq Require Import NArith.
-From SV Require Import SM.LazyLumps SM.LazyLumpsProofs SM.LazyLumpsAppend SM.LazyLumpsCond Fmt.BspContainer Fmt.BspContainerProofs.
+From SV Require Import SM.LazyLumps SM.LazyLumpsProofs SM.LazyLumpsAppend SM.LazyLumpsCond SM.LazyLumpsSide Fmt.BspContainer Fmt.BspContainerProofs.
 From SV Require Bin.FindInsert.
 Import ListNotations.
 
@@ -239,6 +239,60 @@ Theorem c10_conditional_store_hypotheses_satisfiable :
   cx_wrc 0 [[7]; [0; 0]] = [Some [7]; None] /\ raw (snd r) 3 = [] /\
   denote (list nat) (list (list nat)) rd g_aux (snd r) 0 = denote (list nat) (list (list nat)) rd g_aux s0 0.
 Proof. exact cond_hyps_satisfiable. Qed.
+
+(** ---------------------------------------------------------------------------------------------------------
+    Writers that store a lump NO view owns (SM/LazyLumpsSide.v): _write_faces_common rewrites FACEIDS, a lump the faces
+    reader reads raw and the property wants back byte-identical.  [seqv] is pointwise equality of states. *)
+Section C10Side.
+  Variables D P : Type.
+  Variable empty : D.
+  Variable rd : nat -> list D -> option P.
+  Variable wr : nat -> P -> list D.
+  Variable wside : nat -> P -> list (nat * D).
+  Variable g : graph.
+  Variable sh : shape.
+
+  (** If, on the values parsed from this file, every store outside the writer's own view goes to an unowned lump and
+      puts there what the file holds ([side_ok]), saving with those stores is saving without them: same completion
+      flag, every lump and every cache entry equal, for all access sequences. *)
+  Theorem c10_store_outside_view_is_invisible : order_consistent g = true -> shape_ok sh = true ->
+    forall s0 : state D P, wr_len_ok D P rd wr g s0 -> side_ok D P rd wside g s0 -> fresh D P s0 -> forall accs,
+    fst (save_s D P empty rd wr wside g sh (run D P empty rd g sh accs s0)) = fst (save D P empty rd wr g sh (run D P empty rd g sh accs s0)) /\
+    seqv D P (snd (save_s D P empty rd wr wside g sh (run D P empty rd g sh accs s0))) (snd (save D P empty rd wr g sh (run D P empty rd g sh accs s0))).
+  Proof. exact (side_save_equiv D P empty rd wr wside g sh). Qed.
+
+  (** ... and therefore lossless under the hypotheses of the main theorem. *)
+  Theorem c10_store_outside_view_lossless : order_consistent g = true -> shape_ok sh = true ->
+    forall s0 : state D P, wr_len_ok D P rd wr g s0 -> side_ok D P rd wside g s0 -> fresh D P s0 -> codec_ok D P rd wr g s0 ->
+    forall accs, let r := save_s D P empty rd wr wside g sh (run D P empty rd g sh accs s0) in
+    (fst r = true -> fresh D P (snd r) /\ same_content D P rd g (snd r) s0) /\
+    (writers_can_look D P rd g s0 -> fst r = true).
+  Proof. exact (side_save_lossless D P empty rd wr wside g sh). Qed.
+End C10Side.
+
+(** [side_ok] is necessary (the defects repaired by fixes b7b21cf and 1c0c7ad): a writer that fabricates ids for a file
+    with an empty FACEIDS lump, or pads a short one with zeros, changes the lump that has no view although every graph
+    condition holds; the writer that stores the ids as read (and nothing when there are none) does not. *)
+Theorem c10_store_outside_view_fabricated_refuted :
+  raw (snd (save_s (list nat) (list nat) nil sx_rd sx_wr (sx_pad nil) g_side std_shape
+              (run (list nat) (list nat) nil sx_rd g_side std_shape (0 :: nil) (sx_file nil)))) 5 = 0 :: 0 :: nil /\
+  raw (snd (save_s (list nat) (list nat) nil sx_rd sx_wr (sx_pad (100 :: nil)) g_side std_shape
+              (run (list nat) (list nat) nil sx_rd g_side std_shape (0 :: nil) (sx_file (100 :: nil))))) 5 = 100 :: 0 :: nil /\
+  raw (snd (save_s (list nat) (list nat) nil sx_rd sx_wr (sx_asread nil) g_side std_shape
+              (run (list nat) (list nat) nil sx_rd g_side std_shape (0 :: nil) (sx_file nil)))) 5 = nil /\
+  ~ side_ok (list nat) (list nat) sx_rd (sx_pad (100 :: nil)) g_side (sx_file (100 :: nil)).
+Proof. exact side_store_fabricated_refuted. Qed.
+
+(** Non-vacuity: all hypotheses hold for the as-read writer on a file with ids; the lump comes back as it was. *)
+Theorem c10_store_outside_view_hypotheses_satisfiable :
+  let s0 := sx_file (100 :: nil) in
+  let r := save_s (list nat) (list nat) nil sx_rd sx_wr (sx_asread (100 :: nil)) g_side std_shape
+             (run (list nat) (list nat) nil sx_rd g_side std_shape (0 :: nil) s0) in
+  order_consistent g_side = true /\ fresh (list nat) (list nat) s0 /\
+  wr_len_ok (list nat) (list nat) sx_rd sx_wr g_side s0 /\ codec_ok (list nat) (list nat) sx_rd sx_wr g_side s0 /\
+  side_ok (list nat) (list nat) sx_rd (sx_asread (100 :: nil)) g_side s0 /\
+  raw (snd r) 5 = 100 :: nil /\ raw (snd r) 2 = 7 :: 8 :: nil.
+Proof. exact side_store_hyps_satisfiable. Qed.
 
 (** ---------------------------------------------------------------------------------------------------------
     The file container (Fmt/BspContainer.v): header, lump table in either field order, map revision, payload
